@@ -31,10 +31,11 @@ BindKinds == {"NewBlockHashes", "NewPubkey", "NewConsolidation", "ProcessWithdra
 SizesOf(kd) == CASE kd = "NewBlockHashes" -> {1, 2, 15, 16}
                  [] kd = "ProcessWithdrawal" -> {1, 2, 31, 32}
                  [] OTHER -> {1}
-FieldsOf(kd) == CASE kd = "NewBlockHashes" -> {"start", "hashFirst", "hashLast", "dropLast", "append"}
+\* "swap" / "reverse": the same items in another ORDER are another payload (for sizes >= 2; a no-op change is skipped by the driver)
+FieldsOf(kd) == CASE kd = "NewBlockHashes" -> {"start", "hashFirst", "hashLast", "dropLast", "append", "swap", "reverse"}
                   [] kd = "NewPubkey" -> {"key"}
                   [] kd = "NewConsolidation" -> {"tx"}
-                  [] kd = "ProcessWithdrawal" -> {"idFirst", "idLast", "dropId", "appendId", "tx", "fee"}
+                  [] kd = "ProcessWithdrawal" -> {"idFirst", "idLast", "dropId", "appendId", "tx", "fee", "swap", "reverse"}
                   [] kd = "ReplaceWithdrawal" -> {"pid", "tx", "fee"}
 F3 == UNION { { [n |-> 2, kind |-> kd, marks |-> {0, 1}, signers |-> {1, 2, 3}, mut |-> IF fd = "none" THEN "none" ELSE "otherPayload",
                  size |-> sz, field |-> fd] : sz \in SizesOf(kd), fd \in FieldsOf(kd) \cup {"none"} } : kd \in BindKinds }
